@@ -9,6 +9,9 @@ for name in sorted(os.listdir("/verif/seeded")):
     m = json.load(open(mp))
     if m.get("detected"):
         obl = m.get("failed_obligations", [])
+        # most telling first: bounded stand-ins with a failing input, then postconditions / panics clauses, then the rest
+        rank = lambda o: (0 if o.startswith("extra-") else 1 if ("_post_" in o or "_panics_" in o) else 2 if "_step_" in o or "_pre_" in o else 3, o)
+        obl = sorted(obl, key=rank)
         how = ", ".join(obl[:3]) + (" …" if len(obl) > 3 else "")
         res = "caught (" + ("failing input replayed" if m.get("confirmed_by_replay") else "no-failing-input-found") + "): " + how
     else:
